@@ -149,12 +149,17 @@ func (e *enumCtx) checkObject(m message.Message, model *refcodec.Packet, start s
 		failf("encoded bytes differ from the MQTT 3.1.1 encoding of the fields: got %s want %s (fields: %s)", hexs(buf[:n]), hexs(exp), want.String())
 		return
 	}
+	// the destination belongs to the caller, who reuses it: the object must not keep
+	// references into it (an identifier assigned during Encode included)
+	wire := append([]byte(nil), buf[:n]...)
+	for i := range buf {
+		buf[i] = 0x5a
+	}
 	if d := sameFields(&want, fromLib(m)); d != "" {
-		failf("getters disagree with the values set: %s", d)
+		failf("getters disagree with the values set (after the caller reused the buffer it had passed to Encode): %s", d)
 		return
 	}
 	m2 := newMsg(typ)
-	wire := append([]byte(nil), buf[:n]...)
 	dn, err := m2.Decode(wire)
 	if err != nil || dn != n {
 		failf("Decode of the library's own encoding: consumed %d of %d, err=%v", dn, n, err)
@@ -230,6 +235,9 @@ func lenEncode() []hop {
 			m.Encode(b)
 			if needsID(p) && p.ID == 0 {
 				p.ID = m.(interface{ PacketID() uint16 }).PacketID()
+			}
+			for i := range b { // the caller reuses its buffer
+				b[i] = 0x5a
 			}
 		}},
 	}
@@ -323,6 +331,18 @@ func subackOps() []hop {
 		id := id
 		ops = append(ops, hop{fmt.Sprintf("SetPacketID(%d)", id), func(m message.Message, p *refcodec.Packet) { sm(m).SetPacketID(id); p.ID = id }})
 	}
+	// a call that fails half-way: whether the codes in front of the bad one were taken is the
+	// library's choice (read back), but fields and bytes agree afterwards
+	ops = append(ops, hop{"AddReturnCodes([2 9]) (fails)", func(m message.Message, p *refcodec.Packet) {
+		if err := sm(m).AddReturnCodes([]byte{2, 9}); err == nil {
+			p.Codes = append(append([]byte(nil), p.Codes...), 2, 9) // accepted an invalid code: the comparison will say so
+			return
+		}
+		got := sm(m).ReturnCodes()
+		if len(got) == len(p.Codes)+1 && got[len(got)-1] == 2 {
+			p.Codes = append(append([]byte(nil), p.Codes...), 2)
+		}
+	}})
 	return append(ops, lenEncode()...)
 }
 
@@ -405,6 +425,10 @@ func connectOps() []hop {
 	ops = append(ops, hop{"SetUsernameFlag(false)", func(m message.Message, p *refcodec.Packet) { cm(m).SetUsernameFlag(false); p.HasUser = false }})
 	ops = append(ops, hop{"SetPasswordFlag(false)", func(m message.Message, p *refcodec.Packet) { cm(m).SetPasswordFlag(false); p.HasPass = false }})
 	ops = append(ops, hop{"SetWillFlag(false)", func(m message.Message, p *refcodec.Packet) { cm(m).SetWillFlag(false); p.Will = false }})
+	// a flag set by hand: the field is part of the message, with the value the object holds (none so
+	// far: the zero-length string)
+	ops = append(ops, hop{"SetUsernameFlag(true)", func(m message.Message, p *refcodec.Packet) { cm(m).SetUsernameFlag(true); p.HasUser = true }})
+	ops = append(ops, hop{"SetPasswordFlag(true)", func(m message.Message, p *refcodec.Packet) { cm(m).SetPasswordFlag(true); p.HasPass = true }})
 	return append(ops, lenEncode()...)
 }
 
